@@ -252,3 +252,136 @@ def mutate(rng, s, n=None):
             j = min(i, len(s) - 1)
             s[j] = rng.choice(MUT_ATOMS)
     return "".join(s)
+
+
+# ---------------------------------------------------------------------------------------------
+# "documented syntax" as a predicate on the parsed arguments (mirror of coq/TagParse/Spec.v: tok_ok, key_ok, body_ok,
+# leaf_ok, val_ok, item_ok).  True iff the AST is the image (Spec.ast_val / ParseProofs.item_node) of some argument list
+# of the documented grammar; the theorem serialize_reparse (Props/C12.v) covers exactly these ASTs.
+# ---------------------------------------------------------------------------------------------
+WSCH = " \t\n\r\f"
+SPECIALS = "|:,]}[{='\"*()"
+KEY_SPECIALS = "='\"|[{*"
+
+
+def tok_ok(t):
+    return bool(t) and t[0] not in "._" and not any(c in WSCH or c in SPECIALS for c in t)
+
+
+def key_ok(k):
+    return bool(k) and k[0] != ":" and not any(c in WSCH or c in KEY_SPECIALS for c in k) and "..." not in k
+
+
+def body_ok(q, b):
+    i = 0
+    while i < len(b):
+        x = b[i]
+        if x == q:
+            return False
+        if x == "\\":
+            if i + 1 >= len(b):
+                return False
+            i += 2 if b[i + 1] in (q, "\\") else 1
+        else:
+            i += 1
+    return True
+
+
+def _atom_ok(p):
+    if p.quoted is not None:
+        return p.quoted in ("'", '"') and body_ok(p.quoted, p.value)
+    return not p.translation and tok_ok(p.value)
+
+
+def leaf_doc(tv, spread, allow_args=True):
+    """TagValue is a documented leaf carrying exactly the spread `spread` (None or the operator) on its head"""
+    ps = tv.parts
+    if not ps or ps[0].filter is not None or ps[0].spread != spread or not _atom_ok(ps[0]):
+        return False
+    if spread is not None and ps[0].translation:
+        return False
+    prev_pipe = False
+    for p in ps[1:]:
+        if p.spread is not None:
+            return False
+        if p.filter == "|":
+            if p.quoted is not None or p.translation or not tok_ok(p.value):
+                return False
+            prev_pipe = True
+        elif p.filter == ":":
+            if not prev_pipe or not allow_args or not _atom_ok(p):
+                return False
+            prev_pipe = False
+        else:
+            return False
+    return True
+
+
+def value_doc(v, spread, depth=0):
+    """list / dict / leaf value in documented form with the given spread operator (None: no spread)"""
+    from django_components.util.tag_parser import TagValue
+    if isinstance(v, TagValue):
+        return leaf_doc(v, spread)
+    if v.spread != spread or v.meta != {} or depth > 100:
+        return False
+    if v.type == "list":
+        for e in v.entries:
+            if isinstance(e, TagValue):
+                if not (leaf_doc(e, None) or leaf_doc(e, "*")):
+                    return False
+            elif e.type == "list":
+                if not (value_doc(e, None, depth + 1) or value_doc(e, "*", depth + 1)):
+                    return False
+            elif not value_doc(e, None, depth + 1):
+                return False
+        return True
+    if v.type == "dict":
+        i, es = 0, v.entries
+        while i < len(es):
+            e = es[i]
+            if isinstance(e, TagValue) and leaf_doc(e, "**", allow_args=False):
+                i += 1
+            elif not isinstance(e, TagValue) and e.type == "dict" and value_doc(e, "**", depth + 1):
+                i += 1
+            else:
+                if not (isinstance(e, TagValue) and leaf_doc(e, None, allow_args=False)) or i + 1 >= len(es):
+                    return False
+                if not value_doc(es[i + 1], None, depth + 1):
+                    return False
+                i += 2
+        return True
+    return False
+
+
+def attr_doc(a):
+    from django_components.util.tag_parser import TagValue
+    v = a.value
+    if a.key is not None and not key_ok(a.key):
+        return False
+    if v.type == "simple":
+        if v.meta != {} or len(v.entries) != 1 or not isinstance(v.entries[0], TagValue):
+            return False
+        if a.key is not None:
+            return v.spread is None and leaf_doc(v.entries[0], None)
+        return v.spread in (None, "...") and leaf_doc(v.entries[0], v.spread)
+    if a.key is not None:
+        return value_doc(v, None, 1)
+    return value_doc(v, None, 1) or value_doc(v, "...", 1)
+
+
+def documented_ast(attrs):
+    """the parsed arguments are those of a tag in the documented syntax: a tag name (bare token) followed by documented items"""
+    if not attrs:
+        return False
+    a0 = attrs[0]
+    if a0.key is not None or a0.value.type != "simple" or a0.value.spread is not None or len(a0.value.entries) != 1:
+        return False
+    ps = getattr(a0.value.entries[0], "parts", None)
+    if not ps or len(ps) != 1 or ps[0].quoted is not None or ps[0].spread or ps[0].translation or ps[0].filter or not tok_ok(ps[0].value):
+        return False
+    return all(attr_doc(a) for a in attrs[1:])
+
+
+def has_empty_key(attrs):
+    """input class `=value` (an attribute that begins with `=`): parse_tag records the key "" and serialize() drops it"""
+    return any(a.key == "" for a in attrs)
